@@ -33,7 +33,6 @@ theorem removeNodeGP_eq (g : G) (x : Nat) : removeNodeGP g x = removeNodeG g x :
   unfold removeNodeGP removeNodeG
   split
   · simp only [gRemoveNode, runG, removeNsP_fun, removeCompP_fun, bind_pure_ok, bind]
-    rfl
   · rfl
 
 theorem removeNodeGP_fun : removeNodeGP = removeNodeG := by funext g x; exact removeNodeGP_eq g x
@@ -122,15 +121,22 @@ theorem removeChildP_eq (g : G) (h : List IfH) (p c : Nat) : removeChildP g h p 
     | ok g1 => simp only []; cases removeCp g1 c false <;> rfl
   · rfl
 
+theorem removeInterfaceP_eq (g : G) (h : List IfH) (i : Nat) : removeInterfaceP g h i = removeInterface g h i := by
+  simp only [removeInterfaceP, Gen.RemovalPlan.removeInterface, removeCpP_eq, Option.getD_none]
+  rfl
+
 theorem pruneP_eq (g : G) (ns cs ss is : List Nat) : pruneP g ns cs ss is = prune g ns cs ss is := by
-  have hns : (fun g s => runApi { x := s, ifs := ifsOfList pruneNsFnIfs s } pruneNsFn g) =
-      (fun g s => (disconnectDeep g (g.nbrs s .connects .cp)).bind (fun g1 => removeNs g1 s)) := by
+  have hns : (fun g s => if g.cls? s == some .ns then runApi { x := s, ifs := ifsOfList pruneNsFnIfs s } pruneNsFn g else .error .query) =
+      removeNsApi := by
     funext g s
-    simp only [pruneNsFn, pruneNsFnIfs, runApi, List.foldlM_cons, List.foldlM_nil, stepApi, ifsOfList, ifsOf,
-      removeNsP_fun, bind, Except.bind, pure, Except.pure]
-    cases disconnectDeep g (g.nbrs s .connects .cp) with
-    | error e => rfl
-    | ok g1 => simp only []; cases removeNs g1 s <;> rfl
+    unfold removeNsApi
+    split
+    · simp only [pruneNsFn, pruneNsFnIfs, runApi, List.foldlM_cons, List.foldlM_nil, stepApi, ifsOfList, ifsOf,
+        removeNsP_fun, bind, Except.bind, pure, Except.pure]
+      cases disconnectDeep g (g.nbrs s .connects .cp) with
+      | error e => rfl
+      | ok g1 => simp only []; cases removeNs g1 s <;> rfl
+    · rfl
   have hif : (fun g i => runApi { x := i, ifs := ifsOfList pruneInterfaceFnIfs i } pruneInterfaceFn g) =
       (fun g i => (disconnectDeep g [i]).bind (fun g1 => removeCp g1 i true)) := by
     funext g i
@@ -139,19 +145,22 @@ theorem pruneP_eq (g : G) (ns cs ss is : List Nat) : pruneP g ns cs ss is = prun
     cases disconnectDeep g [i] with
     | error e => rfl
     | ok g1 => simp only []; cases removeCp g1 i true <;> rfl
-  -- a guarded `_prune_ns` on a present service is `remove_network_service`
-  have hnsg : ∀ (g : G) (s : Nat), (if g.has s then (disconnectDeep g (g.nbrs s .connects .cp)).bind (fun g1 => removeNs g1 s) else .ok g) =
-      (if g.has s then removeNsApi g s else .ok g) := by
-    intro g s
-    by_cases h : g.has s = true
-    · simp only [h, ite_true, removeNsApi]
-      by_cases hc : (g.cls? s == some .ns) = true
-      · simp only [hc, ite_true]; rfl
-      · -- not a service: both fail with a query error (the disconnect loop runs over no interfaces)
-        have hnb : g.nbrs s .connects .cp = [] ∨ True := Or.inr trivial
-        simp only [hc, Bool.false_eq_true, ite_false]
-        sorry
-    · simp [h]
-  sorry
+  simp only [pruneP, pruneLoops, pruneBody, pruneNodeFn, pruneComponentsFn, hns, hif, removeNodeApiP_fun,
+    removeComponentApiP_fun, List.foldlM_cons, List.foldlM_nil, prune, bind, Except.bind, pure, Except.pure, ite_true,
+    Bool.false_eq_true, ite_false]
+  cases List.foldlM removeNodeApi g ns with
+  | error e => rfl
+  | ok g1 =>
+    simp only []
+    cases List.foldlM (fun g c => if g.has c = true then removeComponentApi g c else Except.ok g) g1 cs with
+    | error e => rfl
+    | ok g2 =>
+      simp only []
+      cases List.foldlM (fun g s => if g.has s = true then removeNsApi g s else Except.ok g) g2 ss with
+      | error e => rfl
+      | ok g3 =>
+        simp only []
+        generalize (List.foldlM (m := Except Err) _ g3 is) = r
+        cases r <;> rfl
 
 end FimVerif.Remove
